@@ -82,11 +82,11 @@ def generate(rng, tier, shard, nshards):
             Q = rng.standard_normal((N, 4))
         yield Case("ops", "ops", p=p, q=q, Q=Q, centre=centre, spread=spread, clustered=clustered, rq=gens.unit(rng) * gens.logu(rng, 0.1, 10),
                    n=int(rng.integers(1, 30)), weights=rng.uniform(0.1, 2.0, N), use_weights=bool(rng.integers(2)), seed=int(rng.integers(2**31)))
-    kinds_v = ["zero4", "zero3", "nan", "inf", "len2", "len5", "len1", "rank2", "string", "strlist", "bool", "none_member", "empty",
+    kinds_v = ["complex", "zero4", "zero3", "nan", "inf", "len2", "len5", "len1", "rank2", "string", "strlist", "bool", "none_member", "empty",
                "zero_row", "nan_row", "inf_row", "rank1_for_array", "rank3", "cols5", "cols2"]
     for i in range(max(n // 2, len(kinds_v) * 3)):
         yield Case("reject_vec", "reject:vector", kind=kinds_v[i % len(kinds_v)], base=gens.unit(rng) * gens.logu(rng, 1e-3, 1e3), pos=int(rng.integers(4)))
-    kinds_m = ["scaled", "sheared", "sheared_left", "skewed_pair", "reflected", "negated", "nan", "inf", "zeros", "2x2", "3x4", "flat9", "nonorth", "singular", "ones"]
+    kinds_m = ["scaled", "sheared", "sheared_left", "skewed_pair", "complex_orthogonal", "complex_tiny_imag", "reflected", "negated", "nan", "inf", "zeros", "2x2", "3x4", "flat9", "nonorth", "singular", "ones"]
     for i in range(max(n, len(kinds_m) * 8)):
         yield Case("reject_mat", "reject:matrix", kind=kinds_m[i % len(kinds_m)], R=rq.rodrigues(*gens.rot_axang(rng, "generic")),
                    eps=gens.logu(rng, 3e-4, 1.0) * float(rng.choice([-1, 1])), i=int(rng.integers(3)), j=int(rng.integers(3)),
@@ -273,7 +273,7 @@ def check_ops(case, ctx):
 def bad_vector(kind, base, pos):
     b = base.copy()
     return {
-        "zero4": lambda: np.zeros(4), "zero3": lambda: np.zeros(3),
+        "zero4": lambda: np.zeros(4), "zero3": lambda: np.zeros(3), "complex": lambda: b.astype(complex) + 1j * np.roll(b, 1),
         "nan": lambda: np.where(np.arange(4) == pos, np.nan, b), "inf": lambda: np.where(np.arange(4) == pos, np.inf * (1 if pos % 2 else -1), b),
         "len2": lambda: b[:2], "len5": lambda: np.r_[b, 1.0], "len1": lambda: b[:1], "rank2": lambda: np.vstack([b, b]),
         "string": lambda: "1,0,0,0", "strlist": lambda: [1.0, "a", 2.0, 3.0], "bool": lambda: [True, False, True, True],
@@ -285,6 +285,7 @@ def bad_array(kind, base, pos):
     b = base.copy()
     ok = np.array([1.0, 0, 0, 0])
     return {
+        "complex": lambda: np.vstack([ok, b]).astype(complex) + 1j * np.vstack([np.zeros(4), np.roll(b, 1)]),
         "zero_row": lambda: np.vstack([ok, np.zeros(4), b]), "nan_row": lambda: np.vstack([b, np.where(np.arange(4) == pos, np.nan, b)]),
         "inf_row": lambda: np.vstack([np.where(np.arange(4) == pos, np.inf, b), b]), "rank1_for_array": lambda: b,
         "rank3": lambda: np.ones((2, 2, 4)), "cols5": lambda: np.ones((3, 5)), "cols2": lambda: np.ones((3, 2)),
@@ -293,7 +294,7 @@ def bad_array(kind, base, pos):
     }.get(kind)
 
 
-NOT_LISTED = {"string", "strlist", "bool", "none_member"}   # not among the inputs the property lists: recorded only
+NOT_LISTED = {"string", "strlist", "bool", "none_member", "complex"}   # not among the inputs the property lists: recorded only
 
 
 def must_reject(ctx, r, fn, detail):
@@ -327,6 +328,14 @@ def bad_matrix(p):
         S = np.eye(3)
         S[i, (i + 1) % 3] = e
         return R @ S
+    if kind == "complex_orthogonal":    # M M^T = I and det M = 1 over the complex numbers (hyperbolic 'rotation'): its real part is not a rotation
+        t = abs(e) * 3.0 + 0.03
+        Hc = np.eye(3, dtype=complex)
+        Hc[i, i] = Hc[(i + 1) % 3, (i + 1) % 3] = np.cosh(t)
+        Hc[i, (i + 1) % 3], Hc[(i + 1) % 3, i] = 1j * np.sinh(t), -1j * np.sinh(t)
+        return R @ Hc
+    if kind == "complex_tiny_imag":     # a rotation that carries imaginary parts: not a real matrix at all
+        return R.astype(complex) + 1j * abs(e) * G
     if kind == "sheared_left":      # rows keep (almost) unit length, but two of them are no longer perpendicular
         S = np.eye(3)
         S[i, (i + 1) % 3] = e
@@ -374,7 +383,7 @@ def check_reject_mat(case, ctx):
     from ahrs.common.dcm import DCM
     M = bad_matrix(case.p)
     kind = case.p["kind"]
-    if M.shape == (3, 3) and np.all(np.isfinite(M)):
+    if M.shape == (3, 3) and np.all(np.isfinite(M)) and not np.iscomplexobj(M):
         d = so3_dist(M)
         if d < 1e-4:
             ctx.note("generated matrix closer than 1e-4 to SO(3): not judged")
